@@ -41,6 +41,10 @@ type ScenarioDef struct {
 	// Extra, when set, is run by the worker on every NEW state (after the transition that reached it):
 	// used for the fault-enumeration checks (crash points, malformed catalogue, reload differential).
 	Extra func(scn *world.Scenario, path []world.Op, counts map[string]int) (evals int, distinct map[string]bool, viol []Violation)
+	// Prepare, when set, runs once per process before the first world of the scenario is built (reference data that
+	// itself needs a fresh real core, which must not exist at the same time as the explored one).
+	Prepare  func(scn *world.Scenario)
+	prepared bool
 }
 
 var Scenarios = map[string]*ScenarioDef{}
@@ -86,6 +90,10 @@ type result struct {
 // ---------------------------------------------------------------- worker
 
 func replay(def *ScenarioDef, path []world.Op) (*world.World, error) {
+	if def.Prepare != nil && !def.prepared {
+		def.prepared = true
+		def.Prepare(def.Scn)
+	}
 	w, err := world.New(def.Scn)
 	if err != nil {
 		return w, err
@@ -522,6 +530,10 @@ func ReplayPath(scn string, path []world.Op) ([]world.Step, []Violation, error) 
 	def := Scenarios[scn]
 	if def == nil {
 		return nil, nil, fmt.Errorf("unknown scenario %s", scn)
+	}
+	if def.Prepare != nil && !def.prepared {
+		def.prepared = true
+		def.Prepare(def.Scn)
 	}
 	w, err := world.New(def.Scn)
 	if err != nil {
